@@ -437,6 +437,48 @@ def selection_shapes():
                               asserts="owned and ref TryFrom succeed exactly for the non-ignored variants holding the target type, also for variants that carry "
                                       "their own ref / ref_mut selection; ref_mut exists for the variant that asks for it and writes land in the payload")],
                      decl.replace("\n", " "), exercises=["impl/src/try_into.rs::expand (ref_types of a variant)", "impl/src/utils.rs::FullMetaInfo::ref_types"]))
+    # the FIRST attributed variant names `owned` explicitly; a later variant with the same payload type relies on the default selection
+    # (seed C11-owned-default-parenthesization flipped that default)
+    variants = [Var("A", "a", "tuple", ["V"], attrs="#[try_into(owned)]"), Var("B", "b", "tuple", ["V"], attrs="#[try_into]"), Var("C", "c", "tuple", ["W"], attrs="#[try_into]"),
+                Var("D", "d", "tuple", ["V"], attrs="#[try_into(owned, ref)]")]
+    decl = ("#[derive(Clone, Copy, PartialEq, Debug, derive_more::TryInto)]\npub enum E {\n%s\n}\n\n"
+            "#[derive(Clone, Copy, PartialEq, Debug, derive_more::Unwrap, derive_more::TryUnwrap)]\npub enum U {\n    #[unwrap(owned)]\n    #[try_unwrap(owned)]\n    A(V),\n    #[unwrap]\n    #[try_unwrap]\n    B(V),\n    #[unwrap(owned, ref)]\n    #[try_unwrap(owned, ref)]\n    C(W),\n}\n\n"
+            "#[derive(Clone, Copy, PartialEq, Debug, derive_more::Unwrap, derive_more::TryUnwrap)]\n#[unwrap(owned)]\n#[try_unwrap(owned)]\npub enum U3 {\n    A(V),\n    #[unwrap(ref_mut)]\n    #[try_unwrap(ref)]\n    C(W),\n}"
+            % "\n".join(v.decl("try_into") for v in variants))
+    src = """    #[kani::proof]
+    fn explicit_owned_on_the_first_attributed_variant() {
+        let v = any_e();
+        match <V as core::convert::TryFrom<E>>::try_from(v) {
+            Ok(p) => assert!(matches!(v, E::A(l) | E::B(l) | E::D(l) if l == p)),
+            Err(e) => assert!(matches!(v, E::C(..)) && e.input == v, "owned TryFrom refused a non-ignored variant holding a V"),
+        }
+        match <W as core::convert::TryFrom<E>>::try_from(v) {
+            Ok(p) => assert!(matches!(v, E::C(l) if l == p)),
+            Err(e) => assert!(!matches!(v, E::C(..)) && e.input == v, "owned TryFrom refused the variant enabled by a bare #[try_into]"),
+        }
+        let u = match kani::any::<u8>() % 3 { 0 => U::A(V(kani::any())), 1 => U::B(V(kani::any())), _ => U::C(W(kani::any())) };
+        if let U::A(l) = u { assert!(u.unwrap_a() == l && u.try_unwrap_a() == Ok(l)); }
+        if let U::B(l) = u { assert!(u.unwrap_b() == l && u.try_unwrap_b() == Ok(l)); }
+        if let U::C(l) = u { assert!(u.unwrap_c() == l && *u.unwrap_c_ref() == l && u.try_unwrap_c() == Ok(l)); }
+        // a kind selected on the variant only (documented: "on the enum declaration or that variant") adds to the enum-level selection
+        let mut u3 = if kani::any() { U3::A(V(kani::any())) } else { U3::C(W(kani::any())) };
+        if let U3::C(l) = u3 {
+            assert!(u3.unwrap_c() == l && u3.try_unwrap_c() == Ok(l) && u3.try_unwrap_c_ref().ok() == Some(&l));
+            let nv: u32 = kani::any();
+            u3.unwrap_c_mut().0 = nv;
+            assert!(matches!(u3, U3::C(W(x)) if x == nv), "unwrap_c_mut does not hand out the payload");
+        } else {
+            assert!(u3.try_unwrap_c_ref().is_err() && u3.try_unwrap_a().is_ok());
+        }
+        kani::cover!(matches!(v, E::B(..)), "reach B");
+        kani::cover!(matches!(u, U::B(..)), "reach U::B");
+    }
+"""
+    out.append(Shape("c11_explicit_owned_first", module(decl, any_e(variants), src),
+                     [Harness("explicit_owned_on_the_first_attributed_variant", "the values: variant and payloads symbolic", covers=2,
+                              asserts="owned accessors / conversions exist and succeed for every non-ignored variant when the first attributed variant names `owned` explicitly")],
+                     decl.replace("\n", " "), exercises=["impl/src/utils.rs::State::new_impl (defaults of owned / ref / ref_mut)", "impl/src/try_into.rs::expand",
+                                                          "impl/src/unwrap.rs::expand", "impl/src/try_unwrap.rs::expand"]))
     # exactly one non-ignored variant: `is_x()` still has to look at the value
     variants = [Var("Data", "data", "tuple", ["V"]), Var("Heartbeat", "heartbeat", "unit", [], attrs="#[is_variant(ignore)]", ignored=True),
                 Var("Other", "other", "tuple", ["W"], attrs="#[is_variant(ignore)]", ignored=True)]
